@@ -27,7 +27,10 @@ add("C06", "tds-sim", "exploration",
     "Seeded search over event schedules (14 time classes incl. t0, tf, ulp neighbours, coincident, within eps, at/around resume "
     "boundaries), step-size knobs, resumed segments and solver-forced rejections on the real TDS loop of ~85 stock cases; every "
     "TimerParam callback is logged and compared with an independent schedule model (exactly once, exact time, enabled only, "
-    "addressed device only, persistence, exact grid). Evidence, not proof: samples schedules.",
+    "addressed device only, persistence, exact grid). Between resumed segments the simulator also acts as the user: events whose time has not come "
+    "are put in or out of service (Model.alter on u) and must fire / stay silent accordingly; lines that the case brings out of service are "
+    "switched in by events, and at the end of every successful run the power every Line injects into the network equations must be that of its "
+    "data with its current status (line_effect). Evidence, not proof: samples schedules.",
     "Trusted: the recorder wrappers (instance attributes) do not perturb the run; event devices are read back from the loaded "
     "System as data. Stability of the disturbed case is not assumed.", "DESIGN.md section 4, C06")
 
@@ -37,7 +40,8 @@ add("C04", "tds-sim", "exploration",
     "integration rule recomputed from the simulator's own x0/f0 copies and an independently rebuilt mass matrix; acceptance <=> |inc|<=tol, "
     "accepted state == evaluation point - increment, rejection is an exact no-op (forced at every attempt index of three short runs: exhaustive "
     "single-fault placement), continuity between attempts, step-size envelope, end-to-end residual, completion, and order of convergence by step "
-    "halving. Evidence, not proof.",
+    "halving. The mass matrix is rebuilt from the models' time-constant parameters at every attempt; seeded plans alter a time constant between "
+    "resumed segments (Model.alter) or during the run (timed Alter on M), after which the rule must hold with the new value. Evidence, not proof.",
     "Trusted: model-level t_const parameters and limiter x_set lists are taken as data; the solver seam returns a bounded wrong increment to force "
     "the real rejection path. Completion is only demanded at the default tolerance on stock schedules.", "DESIGN.md section 4, C04")
 
@@ -46,7 +50,7 @@ add("C14", "restart-sim", "exploration",
     "A reference twin runs each seeded plan uninterrupted; the subject is interrupted at seeded points after the first disturbance (on/off grid, "
     "at and around events, just after the first event) by resume, save_ss/load_ss (stream and file), continuing the original after save, "
     "crash at a seeded attempt with restart from the snapshot bytes only, torn/bit-flipped snapshot, and reset()+power flow. Trajectories must "
-    "agree (bit-level when reproducible, else within 3x a step-halving estimate), the event log must neither lose nor repeat events, the time "
+    "agree (bit-level when reproducible, else within 3x a step-halving estimate; interruptions a hair - 1e-5 .. 1e-6 s - before an event included), the event log must neither lose nor repeat events, the time "
     "axis must be gap- and duplicate-free, restored objects keep Tf/Teye/flags/switch index and view aliasing. Every stored grid point of a "
     "short run is enumerated as split point for three cases.",
     "Trusted: the twin run as reference; undetermined zero-time-constant states are excluded from comparisons; dill snapshots are costly here so "
@@ -56,14 +60,15 @@ add("C15", "tds-sim", "exploration",
     "deterministic simulation: recorder ground truth of accepted steps vs memory / npz / lst / loader / csv / csv replay under seeded selection, thinning, off-loading, resume and injected write errors",
     "The simulator copies (t, x, y) of every accepted attempt; the in-memory series, the npz rows (across off-load chunks and resumed segments), "
     "the lst labels (against the owner of each slot), the TDSData loader, name/regex queries, the csv export and a csv replay in a fresh System "
-    "must reproduce exactly those numbers in exactly the reference selection and thinning; ENOSPC/EIO injected on the k-th npz write must "
+    "and the in-memory plotter (re)loaded after every segment must reproduce exactly those numbers in exactly the reference selection and thinning; ENOSPC/EIO injected on the k-th npz write must "
     "propagate or fail the run. Seeded over stock cases, Output shapes, save_every, limit_store/max_store and segments.",
     "Trusted: StepTap copies as ground truth; slot ownership read from the variables' address arrays (C10 checks those); z (limiter flag) columns "
     "are only checked for count, not value.", "DESIGN.md section 4, C15")
 
 add("C16", "solver-sim", "exploration",
     "deterministic simulation: seeded matrix-sequence histories on one solver instance vs dense reference in sacrificial workers; stale-factor fault and cross-option twins in real runs; fresh-interpreter repetition",
-    "Per back-end (KLU, UMFPACK, SuperLU) seeded histories of same-pattern / new-pattern / new-size / singular / regular-again matrices through "
+    "Per back-end (KLU, UMFPACK, SuperLU) seeded histories of same-pattern / new-pattern / new-size / singular / regular-again matrices, values changed in place on the matrix object "
+    "of the previous call, and regular matrices that need pivoting (tiny diagonal) through "
     "solve() and linsolve(), with and without refresh requests, are judged by numpy.linalg (||Ax-b|| <= 1e-9||b||; singular => NaN/exception and "
     "recovery); a worker death by signal is an observation. In real runs an injected stale symbolic factor must leave the trajectory "
     "bit-identical and every solve of the run must satisfy A x = b for the matrix and right-hand side it was given; the same disturbed plan "
@@ -76,10 +81,10 @@ add("C16", "solver-sim", "exploration",
 add("C17", "tds-sim", "fault_enumeration",
     "fault enumeration: fixed catalogue of constructed / injected failures (class x case x position) run completely, plus seeded combinations; flags, exit codes, dependants and stored state checked",
     "A fixed catalogue (overload, NaN at iteration k, iteration limit, no slack, zero impedance, solver NaN / persistent rejection / shrinkt=0 at "
-    "attempt k, criterion trip, corrupted PF hand-over, dependants after a failed PF, missing / unknown / truncated input per format, fail-repair-"
+    "attempt k, criterion trip, infeasible and feasible cases under the Newton-Krylov variant, corrupted PF hand-over, dependants after a failed PF, missing / unknown / truncated input per format, fail-repair-"
     "retry, and success followed by an infeasible re-run on the same System: loads altered x50, iteration limit, solver NaN) is executed completely on every run and extended by seeded combinations over the stock cases. Failure must give False, non-zero exit "
     "code, refusing dependants, no NaN rows or solution; each reported success is re-examined (residual at the reported solution, end time, "
-    "criterion).",
+    "stability criterion re-evaluated from the rotor-angle slots of the in-service machines themselves).",
     "Trusted: PF success is re-examined with the routine's own residual evaluation; for corrupt input an exception that would end the CLI with "
     "non-zero status counts as reported. Undetectable corruption (a still-valid file) is not demanded.", "DESIGN.md section 4, C17")
 
@@ -89,7 +94,8 @@ add("C05", "tds-sim", "exploration",
     "disturbance under seeded method/step/solver/tolerance, split into resumed segments, optionally under quasi-real-time stepping with a "
     "simulated steady/slow/jumpy/stalled/fast wall clock. test_ok must equal the simulator's own reading of the residuals, bus slots must carry "
     "the power-flow solution bit-exactly, stock data measured consistent must keep initialising, and with every limiter strictly inside the "
-    "state must not move (<= 20x the init residual). A corrupted hand-over must be reported (test_ok False, exit code, run() not True). "
+    "state must not move (<= 20x the init residual). A corrupted hand-over (voltage / angle perturbation, a NaN, a zero droop that makes one "
+    "residual NaN while all others stay zero) must be reported (test_ok False, exit code, run() not True). "
     "A fifth of the plans take one generating unit completely out of service before set-up: a static generator that is off in the power "
     "flow must not be in service after the dynamic initialisation, and the case must still initialise.",
     "Not claimed: combinations of dynamic models that no stock case contains (pure input generation). Trusted: limiter flags zl/zu as the "
@@ -99,7 +105,7 @@ add("C09", "tds-sim", "exploration",
     "deterministic simulation: limiter monitors and call-by-call reference shadows of history components in runs with forced step rejections (real rewinds); seeded stand-alone component histories with repeats and rewinds; enumerated flag algebra",
     "In seeded runs that drive limiters (stock disturbances, bus faults near machines, load switching) with solver-forced rejections, every "
     "anti-windup state must stay inside its (possibly voltage-dependent) limits at every stored instant, held states must have a zero stored "
-    "derivative, every limiter's flags must be one-hot and agree with the comparison of its input away from the boundary, and each "
+    "derivative, the value of every rate-limited differential equation must lie inside its enabled rate limits, every limiter's flags must be one-hot and agree with the comparison of its input away from the boundary, and each "
     "Delay/Average/Derivative instance of the system is shadowed call by call by a textbook reference fed the same (time, input) sequence, "
     "including real rewinds. Stand-alone, every discrete class is driven by seeded call sequences with repeated, irregular and rewound time "
     "stamps, equality, one-sided and sign-flipped limits; the flag algebra is enumerated over all orderings on a small grid.",
@@ -120,7 +126,7 @@ add("C12", "lifecycle-sim", "exploration",
 add("C10", "lifecycle-sim", "exploration",
     "deterministic simulation: stock cases rebuilt through System.add in seeded device order with seeded index re-typing, seeded lifecycle (setup / power flow / reset / dynamic init / steps / snapshot restore); ownership bijection and unique-sentinel aliasing checked after every operation",
     "Every stock case is taken apart into device rows and rebuilt through System.add in file, reversed, model-shuffled or fully interleaved "
-    "order with per-group numeric<->string index re-typing applied consistently to every reference; in 30 % of the plans a seeded subset of the "
+    "order with per-group index re-typing (numeric, zero-based numeric, string, strings of digits such as '2' / '07') applied consistently to every reference; in 30 % of the plans a seeded subset of the "
     "models uses collated storage (ModelFlags.collate). After each lifecycle operation (both "
     "addressing phases, reset, snapshot save/load) the reference checker verifies that every internal variable of every device owns exactly "
     "one slot, all slots are owned, slot names name the owner, and - with a unique sentinel in every slot - reads through the model, Model.get, "
@@ -137,7 +143,9 @@ add("C11", "lifecycle-sim", "exploration",
     "power flow injects; an altered time constant must be in dae.Tf and TDS.Teye for every state it serves (shared time constants of the "
     "renewable models included) and the following steps must satisfy the rule mirror with the "
     "independently rebuilt mass matrix; every json/xlsx export written after an alteration - whatever was exported or cached before - and the "
-    "reloaded export must carry the altered input-base values; reset() restores v = vin*k.",
+    "reloaded export must carry the altered input-base values; reset() restores v = vin*k. The histories include a value set directly and then "
+    "given again through the alteration call (both representations must end at it) and a device base (Sn) altered before the system is set up "
+    "again (every flagged quantity must then sit on the new base).",
     "Trusted: the quantity kind of each parameter is read from the model declaration; parameters touched by Model.set are excluded until "
     "reset (documented semantics of set); limit parameters adjusted at initialisation are only judged when altered by the history.",
     "DESIGN.md section 4, C11")
@@ -146,12 +154,11 @@ add("C19", "lifecycle-sim", "exploration",
     "deterministic simulation: seeded add-sequence histories (index styles, duplicates, auto indices, interleaved order, dangling references) against a dict-based registry reference; lookups, back-references and helper devices checked after setup",
     "Small systems are built device by device through System.add across ten groups with explicit, duplicate, missing, numeric, float, string "
     "and numeric-looking-string indices in natural, reversed or shuffled order (referrers before targets where the index is known), optionally "
-    "with one dangling required reference. A registry reference records the index returned for every device. Indices must be unique per "
+    "with one dangling required reference or a dangling *optional* one (IEEEG1.syn2). A registry reference records the index returned for every device. Indices must be unique per "
     "group and retrievable, explicit free indices kept, idx2model/idx2uid/get/find_idx (model and group, allow_all, allow_none) must return "
     "exactly the reference's answers, every BackRef list must be the exact inverse relation, auto-created BusFreq helpers must measure the "
-    "right bus and exist once per bus, and a dangling required reference must make setup() fail.",
-    "Trusted: the reference records returned indices (generated names are not predicted). Only the required references listed in the module "
-    "are made dangling.", "DESIGN.md section 4, C19")
+    "right bus and exist once per bus, and a dangling reference - required, or optional but given - must make setup() fail.",
+    "Trusted: the reference records returned indices (generated names are not predicted). Only the references listed in the module are made dangling.", "DESIGN.md section 4, C19")
 
 add("C20", "lifecycle-sim", "exploration",
     "deterministic simulation: seeded construction / save / cold-restart histories over the real configuration space with seeded delivery channels, negative and truncated-file variants; every tds-sim run of the other checks also delivers its knobs through seeded channels",
@@ -159,9 +166,10 @@ add("C20", "lifecycle-sim", "exploration",
     "enumeration). Each plan draws fields from the ~400 real config fields of System, routines and models, gives them values of their own "
     "type and delivers them by option string, private rc file, System(config=...) or option+file with different values. The value in effect "
     "must be the highest-precedence one with the documented coercion, untouched fields keep defaults, save_config -> new System reproduces "
-    "every field in value and type (also after changes on the config object), out-of-alternative values and malformed options raise, and a "
-    "truncated rc file never yields a silently different value.",
-    "Trusted: the field catalogue (names, defaults, alternatives) is read from a default System of the current tree.",
+    "every field in value and type (also after changes on the config object), out-of-alternative values (integer- and string-valued, every "
+    "string-valued field on both channels in a fixed part) and malformed options raise, and a truncated rc file never yields a silently different value.",
+    "Trusted: field names and defaults are read from a default System of the current tree; the declared alternatives used by the rejection "
+    "plans come from a committed catalogue measured on the pinned tree (dst/config_alt.json).",
     "DESIGN.md section 4, C20")
 
 add("C13", "restart-sim", "exploration",
@@ -170,7 +178,9 @@ add("C13", "restart-sim", "exploration",
     "of file content and not claimed). Every stock case (xlsx, json, raw+dyr, matpower sources) is exported and a new System is built from "
     "the export alone, through one to three hops over json and xlsx; exported parameters must be equal field by field, the power-flow "
     "solution equal to 1e-12 and the dynamic-initialisation residual vectors equal. A truncated or lost export must fail loudly (exception, "
-    "None, non-zero CLI status) or load to an equal system, never to a different one. MATPOWER export clause: the static network of a stock case "
+    "None, non-zero CLI status) or load to an equal system, never to a different one. Nearly half of the fault-free plans export a mid-life "
+    "system: parameters altered through the public calls first (alter, set followed by alter to the same value, status cleared and confirmed), "
+    "with a by-the-book reference of the input-base data. MATPOWER export clause: the static network of a stock case "
     "(seeded bus-index typing and device order; seeded loads / shunts / lines / generators out of service, a second load or shunt on a bus, "
     "altered set points) is exported with system2mpc and a new System built by mpc2system from the dict alone must have the same power flow "
     "at every bus (1e-8); networks the format cannot hold (other power-flow devices, asymmetric branch shunts, loads outside their voltage "
@@ -193,21 +203,24 @@ add("C08", "lifecycle-sim", "exploration",
 add("C07", "tds-sim", "exploration",
     "deterministic simulation: seeded single-machine systems with seeded line-switching schedules vs an independently integrated swing equation; seeded perturbations of stock cases vs the matrix-exponential response of a densely assembled linearisation; both at two step sizes",
     "A classical machine against an infinite bus through 2-3 parallel lines is built from seeded inertia, damping, reactances, loading, voltage "
-    "and base frequency with 1-4 seeded line-switching events (on/off grid, ulp neighbours, close pairs); the real TDS (both methods) at h and "
+    "and base frequency with 1-4 seeded events (lines opened / closed on and off the grid, at ulp neighbours, in close pairs; the inertia constant "
+    "changed during the run by a timed Alter device, which the reference follows); the real TDS (both methods) at h and "
     "h/2 is compared with the swing equation integrated by SciPy DOP853 between switching instants from the power-flow-derived E'. Stock "
     "cases (limiters inside, no zero time constants) are perturbed by eps*d, made consistent by a 1e-6 s segment and compared (i) with the "
     "integration rule itself applied to the densely assembled linearisation on the time stamps actually produced (agreement to second-order "
     "terms) and (ii) with x* + expm(A t) d, from which the run may differ by exactly that rule's discretisation error; the requested fixed "
     "step must be the step taken and the error must not grow on halving. The SMIB error must shrink with the step within a Richardson bound.",
     "Trusted: SciPy's integrator and expm as references; phasor algebra for E'; nonlinearity floor 2*response^2 in the small-signal benchmark; "
-    "backward Euler is only required to improve (<= 0.92x) at these step sizes.", "DESIGN.md section 4, C07")
+    "backward Euler is only required not to get worse on halving at these step sizes (its error is dominated by numerical damping); the Richardson "
+    "bound is the sharp part.", "DESIGN.md section 4, C07")
 
 add("C02", "codegen-store", "exploration",
     "deterministic simulation: the on-disk generated-code store under seeded faults (model edits, stale md5, torn / deleted files, generation crash after k pool tasks in seeded order, restarts in fresh interpreters); loaded code vs independent sympy evaluation of the currently declared strings",
     "Partial claim: the lifecycle clause (regeneration from an unchanged model is functionally - here byte - identical; code that no longer "
     "matches the model is never silently used). Each scenario works on a private copy of the store (own HOME) and drives it through fresh "
     "interpreters: equation edits and their reversal, overwritten md5, files truncated at a seeded byte, deleted __init__/model files, a "
-    "generation that dies after k tasks of an in-process pool with seeded completion order, repeated regenerations. After every start the "
+    "generation that dies after k tasks of an in-process pool with seeded completion order, repeated regenerations, and an equation edited on the "
+    "live System followed by an incremental regeneration on that same instance (then a fresh session on the stock model). After every start the "
     "loaded residual functions of four probe models (1e-9) and of every model in use of a seeded stock case (residuals, variable and "
     "constant services, explicit initialisation assignments; 1e-6; all 45 evaluation cases after a full regeneration) are executed through "
     "the model's own update methods on seeded values and compared with a sympy evaluation by symbol name of the currently declared strings "
